@@ -89,6 +89,73 @@ Proof.
   destruct (cnt (getobj hp o) - 1 =? 0); simpl; apply length_upd.
 Qed.
 
+(* ------------------------------------------------------------------ how large a count can get *)
+Lemma nh_le_length hs o : nh hs o <= Z.of_nat (length hs).
+Proof.
+  induction hs as [|s hs IH]; simpl length; [simpl; lia|]. cbn [nh]. pose proof (ind_range (slot_tgt s) o). lia.
+Qed.
+
+(* micro-operations never touch the creator-side count, and keep the number of handle slots *)
+Lemma rmw_false_creator o hp x :
+  creator (getobj (rmw_inc false o hp) x) = creator (getobj hp x) /\
+  creator (getobj (rmw_dec false o hp) x) = creator (getobj hp x).
+Proof.
+  unfold rmw_inc, rmw_dec. destruct (alive (getobj hp o)) eqn:A; [|split; reflexivity].
+  pose proof (alive_in_range _ _ A) as R. split.
+  - rewrite getobj_upd by auto. destruct (Nat.eqb_spec o x); subst; reflexivity.
+  - destruct (cnt (getobj hp o) - 1 =? 0); rewrite getobj_upd by auto; destruct (Nat.eqb_spec o x); subst; reflexivity.
+Qed.
+
+Lemma run_prog_creator_len fz p : forall c x,
+  creator (getobj (snd (run_prog fz p c)) x) = creator (getobj (snd c) x) /\
+  length (snd (fst (run_prog fz p c))) = length (snd (fst c)).
+Proof.
+  induction p as [|m p IH]; intros [[fr hs] hp] x; [simpl; auto|].
+  cbn [run_prog]. destruct (IH (mexec fz m (fr, hs, hp)) x) as [E1 E2]. rewrite E1, E2. unfold mexec.
+  destruct (pexec fz m fr hs) as [fr' hs'] eqn:P. simpl.
+  assert (L : length hs' = length hs) by (pose proof (len_pexec fz m fr hs) as Q; rewrite P in Q; exact Q).
+  split; [|exact L].
+  destruct m as [g q|g q|d q| |]; simpl; auto.
+  - destruct (eval fz fr hs q); [apply rmw_false_creator|destruct g; reflexivity].
+  - destruct (eval fz fr hs q); [apply rmw_false_creator|destruct g; reflexivity].
+  - destruct d; simpl; auto. destruct (f_arg fr); reflexivity.
+Qed.
+
+Lemma call_creator_len tbl m h a cj s x :
+  creator (getobj (s_heap (call tbl m h a cj s)) x) = creator (getobj (s_heap s) x) /\
+  length (s_hs (call tbl m h a cj s)) = length (s_hs s).
+Proof.
+  unfold call. pose proof (run_prog_creator_len [] (prog_of tbl m) (mkFrame h a no_loc cj, s_hs s, s_heap s) x) as H.
+  destruct (run_prog [] (prog_of tbl m) (mkFrame h a no_loc cj, s_hs s, s_heap s)) as [[fr' hs'] hp']. exact H.
+Qed.
+
+Lemma step_creator_len tbl s o x :
+  creator (getobj (s_heap (fst (step_t tbl s o))) x) <= Z.max 1 (creator (getobj (s_heap s) x) + 1) /\
+  length (s_hs (fst (step_t tbl s o))) = length (s_hs s).
+Proof.
+  unfold step_t. destruct (legal s o) eqn:L; simpl; [|split; lia].
+  destruct o; unfold exec_op; cbv zeta; try (match goal with |- context[call tbl ?m ?h ?a ?cj s] => destruct (call_creator_len tbl m h a cj s x) as [E1 E2]; rewrite E1, E2; split; lia end); simpl.
+  - (* Create *) split; auto. rewrite getobj_app_new. destruct (Nat.eqb x (length (objs (s_heap s)))); simpl; lia.
+  - (* RefInc *) split; auto. simpl in L. unfold rmw_inc. rewrite L. pose proof (alive_in_range _ _ L).
+    rewrite getobj_upd by auto. destruct (Nat.eqb_spec o x); subst; simpl; lia.
+  - (* RefDec *) split; auto. simpl in L. apply andb_true_iff in L as [L _]. unfold rmw_dec. rewrite L. pose proof (alive_in_range _ _ L).
+    destruct (cnt (getobj (s_heap s) o) - 1 =? 0); rewrite getobj_upd by auto; destruct (Nat.eqb_spec o x); subst; simpl; lia.
+Qed.
+
+Lemma run_creator_len tbl l : forall s k x, 0 <= k ->
+  (forall y, creator (getobj (s_heap s) y) <= 1 + k) ->
+  creator (getobj (s_heap (run_from_t tbl s l)) x) <= 1 + k + Z.of_nat (length l) /\
+  length (s_hs (run_from_t tbl s l)) = length (s_hs s).
+Proof.
+  induction l as [|o l IH]; intros s k x K0 H.
+  - unfold run_from_t. cbn [fold_left length]. split; auto. specialize (H x). change (Z.of_nat 0) with 0. lia.
+  - change (run_from_t tbl s (o :: l)) with (run_from_t tbl (fst (step_t tbl s o)) l).
+    change (length (o :: l)) with (S (length l)). rewrite Nat2Z.inj_succ.
+    destruct (IH (fst (step_t tbl s o)) (k + 1) x) as [E1 E2]; [lia| |].
+    + intro y. destruct (step_creator_len tbl s o y) as [B _]. specialize (H y). lia.
+    + destruct (step_creator_len tbl s o x) as [_ B2]. rewrite E2, B2. split; auto. lia.
+Qed.
+
 Section Table.
 Variable tbl : meth -> list mop.
 Hypothesis Hc : contracts_ok tbl = true.
@@ -193,6 +260,25 @@ Proof.
         destruct op; unfold exec_op; try apply Hcall; simpl; rewrite ?len_rmw_inc, ?len_rmw_dec, ?app_length; simpl; lia. }
       lia. }
     apply Nat.ltb_lt in R. rewrite R. reflexivity.
+Qed.
+
+(* a count never exceeds 1 + (length of the history) + (number of handle slots): it is the creator-side
+   count (at most one more per step) plus the handles pointing at the object.  So for histories with
+   1 + length + slots < 2^63 the unbounded count of the model is exactly what a 64-bit signed counter holds. *)
+Lemma seq_count_bounded n l o : let s := run_t tbl n l in
+  0 <= use_count s o <= 1 + Z.of_nat (length l) + Z.of_nat n /\
+  (1 + Z.of_nat (length l) + Z.of_nat n < 2 ^ 63 -> wrap64 (use_count s o) = use_count s o).
+Proof.
+  intro s. pose proof (run_inv n l) as I. fold s in I.
+  pose proof (inv_count s o I) as E.
+  destruct (run_creator_len tbl l (init n) 0 o) as [C Ln]; [lia| |].
+  { intro y. unfold getobj, init; simpl. destruct y; simpl; lia. }
+  fold (run_t tbl n l) in C, Ln. fold s in C, Ln.
+  assert (Lh : length (s_hs s) = n) by (rewrite Ln; unfold init; simpl; apply repeat_length).
+  pose proof (nh_le_length (s_hs s) o) as Hn. rewrite Lh in Hn.
+  pose proof (gi_cre _ _ _ I o) as C0. pose proof (nh_nonneg (s_hs s) o) as N0.
+  assert (B : 0 <= use_count s o <= 1 + Z.of_nat (length l) + Z.of_nat n) by lia.
+  split; auto. intro F. unfold wrap64. rewrite Z.mod_small by lia. lia.
 Qed.
 
 Lemma seq_handle_eq_iff n l a b : let s := run_t tbl n l in
